@@ -1,5 +1,6 @@
 import QtVerif.Proofs.Core
 import QtVerif.Proofs.CoreTiny
+import QtVerif.Proofs.CoreTrace
 /-!
 C01 — ports with expressions converge to the value of their expression.
 
@@ -24,6 +25,34 @@ are the stuttering action `passSkip`, so `converges` holds for every schedule co
 that itself carries an expression are outside the model (C15).
 Acyclicity is NOT needed: the theorem holds for every hub and constrains every port whose expression does not read
 the port itself (cyclic hubs may simply never become quiescent).
+
+Scope of `converges` — where the theorem is NARROWER than the property's first sentence, and why:
+ 1. Self-reading ports are not constrained (`p ∉ cfg.deps e` in `Converged`). Reason: `handle_value_changes` removes the
+    port's own id from its dependencies (`deps = port_own_deps - {$id}`; `trig`: `q != p`), so the port's own change
+    never re-triggers it: an expression such as `ADD($y, $x)` on `y` is evaluated once per external trigger and no
+    fixpoint is sought. The model does NOT exclude such ports by a guard — they run like any other port — and the
+    statement without the exclusion is FALSE: `self_reading_not_converged` below (reachable quiescent state, y = 6,
+    expression = 7).
+ 2. An evaluation ERROR leaves the port unconstrained (`Good … = True` on `Res.error`). Reason: `_eval_and_write`
+    returns on `ExpressionEvalError` (disabled / unknown port, arithmetic) and the port keeps whatever value it had;
+    there is no value "the expression yields" to hold. `ValueUnavailable` IS constrained (the port must hold `none`).
+ 3. The write transform is folded into `adapt`. The model has no `transform_write` / `transform_read`: `Cfg.adapt p`
+    stands for `adapt_value_type` (followed by a write transform whose read-back through H1 is the identity). Reason:
+    with H1 (register drivers) the value read back after a write is the value written; a pair of transforms that are not
+    mutually inverse makes the port read back something else than the expression's value and legitimately never hold
+    it (excluded in the manifest; the write transform itself is C05's subject).
+ 4. Queues are unbounded (H2). `_eval_queue` / `_write_value_queue` are `asyncio.Queue(maxsize=1024)`; on overflow
+    `push_eval` drops the NEW snapshot and `_queue_value` drops the OLDEST write — either loses exactly the obligation
+    the invariant relies on. Reason for excluding: the overflow regime is a load condition, not a scheduling one; `evalQ`
+    and `wq` are plain lists.
+ 5. Guards of `step?` on the environment actions: `setSource p` / `apiWrite p` only while `p` carries no expression
+    (PATCH /ports/{id}/value answers 400 `port-with-expression`; a driver-level change of an expression port's register
+    competes with the port's own writes and is "corrected" only at the next trigger), and a FIRST `setExpr p` only while
+    `p` is `quiet` (an API write still queued for the port would be written after the expression's value). Re-assigning,
+    clearing, enable, disable are unguarded.
+
+The property's SECOND sentence, at trace level (Proofs/CoreTrace.lean): `unread_changes_never_alter` (A) and
+`dep_change_is_re_evaluated` / `dep_change_blocks_quiescence` (B) below; the single-step lemmas are kept.
 -/
 namespace QtVerif.Core
 variable {E : Type}
@@ -77,6 +106,85 @@ theorem obligation_queues_current_snapshot (cfg : Cfg E) (s s' : State E) (ps : 
     (hob : ps.all = true ∨ p ∈ ps.forced ∨ ∃ q, q ∈ cfg.deps e ∧ q ∈ ps.changed) :
     (s'.port p).evalQ.getLast? = some (view s') ∧ Current cfg s' e (view s') :=
   handleB_queues cfg s s' ps p e hps hst hp hen he hd hob
+
+/-! ### the second sentence at trace level -/
+
+/-- (A) A CHANGE OF A PORT IT DOES NOT READ NEVER ALTERS A PORT. For every reachable state `s` of the repaired scheduler
+in which the expression port `p` is settled (`quiet`: no evaluation queued or running, no write queued or in flight)
+and not forced (`Unforced`: not in the forced set, `forceAll` off, the running pass — if any — neither forces it nor
+has detected a change of a port `e` reads), and every run `acts` from `s` to `s'` each step of which satisfies
+`Unread` (p keeps its expression `e`, stays unforced, and no OTHER port read by `e` changes its last read value —
+every other port may change at will, sources may be set, passes may run, other ports may evaluate and write): the
+driver register of `p` and its value are unchanged, `p` is still settled and unforced, and NO step of `p`'s eval task
+or writer task (`evalTake p`, `evalCmp p`, `writeBegin p`, `writeEnd p`) occurs in the run.
+`Reach` is needed only for "the value is unchanged" (a settled, unforced, enabled port's value is its register). -/
+theorem unread_changes_never_alter (cfg : Cfg E) (hfr : Frame cfg) (hrc : cfg.repConfirm = true)
+    (hrf : cfg.repForce = true) (hcap : cfg.repCapture = true) (p0 : PortId → PortSt E) (h0 : InitOk p0)
+    (s : State E) (hr : Reach cfg p0 s) (p : PortId) (hp : p < cfg.n) (e : E) (he : (s.port p).expr = some e)
+    (hquiet : (s.port p).quiet = true) (hun : Unforced cfg s p e)
+    (acts : List (Act E)) (s' : State E) (hrun : run? cfg s acts = some s')
+    (hall : RunAll cfg (Unread cfg p e) acts s) :
+    (s'.port p).drv = (s.port p).drv ∧ (s'.port p).lastRead = (s.port p).lastRead ∧ (s'.port p).quiet = true ∧
+      Unforced cfg s' p e ∧
+      ∀ a, a ∈ acts → a ≠ .evalTake p ∧ a ≠ .evalCmp p ∧ a ≠ .writeBegin p ∧ a ≠ .writeEnd p := by
+  have hM := ((inv_reach hfr hrc hrf hcap p0 h0 hr).2 p hp e he).1
+  have hfresh : (s.port p).enabled = true → (s.port p).drv = (s.port p).lastRead := by
+    intro hen
+    have hidle := ((quiet_iff _).1 hquiet).2.1
+    simp only [MI, hidle] at hM
+    rcases hM.2.2 hen with h | h | h | ⟨ps, h1, h2, _⟩
+    · exact h
+    · exact absurd h hun.1
+    · simp [hun.2.1] at h
+    · obtain ⟨g1, g2, _⟩ := hun.2.2 ps h1
+      rcases h2 with h2 | h2
+      · simp [g1] at h2
+      · exact absurd h2 g2
+  obtain ⟨hS, hno⟩ := settled_run acts s s' ⟨he, hquiet, rfl, rfl, hfresh, hun⟩ hrun hall
+  exact ⟨hS.drv, hS.lr, hS.quiet, hS.unf, hno⟩
+
+/-- (B) A PORT IS RE-EVALUATED AFTER EVERY CHANGE OF A PORT IT READS. In a reachable state `s` a pass is about to poll
+`q`, which is enabled and whose register differs from its last read value (the change is detected by this `passRead`).
+Let `p ≠ q` be a port and `e` an expression reading `q`. For every continuation `acts` after which `p` is (at every
+step) enabled and carries `e` and `q` stays enabled (`Keeps`), and which ends in a QUIESCENT state: the continuation
+contains a step `evalTake p` whose snapshot shows `q` = the new value (`EvalOf`; by `Keeps` the port carries `e` at that
+step, so it is `e` that is evaluated on it). -/
+theorem dep_change_is_re_evaluated (cfg : Cfg E) (hfr : Frame cfg) (hrc : cfg.repConfirm = true)
+    (hrf : cfg.repForce = true) (hcap : cfg.repCapture = true) (p0 : PortId → PortSt E) (h0 : InitOk p0)
+    (s : State E) (hr : Reach cfg p0 s) (ps : Pass) (q : PortId) (rest : List PortId) (hps : s.pass = some ps)
+    (hh : ps.handling = false) (ht : ps.todo = q :: rest) (henq : (s.port q).enabled = true)
+    (hchg : (s.port q).drv ≠ (s.port q).lastRead)
+    (p : PortId) (hp : p < cfg.n) (e : E) (hqd : q ∈ cfg.deps e) (hqp : q ≠ p)
+    (acts : List (Act E)) (s' : State E) (hrun : run? cfg s (.passRead :: acts) = some s')
+    (hall : RunAll cfg (Keeps p e q) (.passRead :: acts) s) (hQ : Quiescent cfg s') :
+    ∃ s1, step? cfg s .passRead = some s1 ∧ (s1.port q).lastRead = (s.port q).drv ∧
+      RunEx cfg (EvalOf p q (s.port q).drv) acts s1 := by
+  simp only [run?] at hrun
+  split at hrun
+  · rename_i s1 h1
+    obtain ⟨g1, g2⟩ := hall s1 h1
+    have hO := passRead_owes p (inv_reach hfr hrc hrf hcap p0 h0 hr).1 hps hh ht henq hchg h1
+    refine ⟨s1, h1, ?_, owed_run hp hqp hqd acts s1 s' g1 hO hrun g2 hQ⟩
+    have := h1
+    simp [step?, hps, hh, ht, henq, hchg] at this
+    subst this
+    simp [State.setPort]
+  · simp at hrun
+
+/-- (B), "as long as" form: under the same hypotheses, a continuation that contains NO evaluation of `p` with a snapshot
+showing the new value of `q` does not end in a quiescent state (every prefix of a run is a run: no state of it is
+quiescent) — the obligation recorded by `re_evaluated_after_dep_change` can only be discharged by such an evaluation. -/
+theorem dep_change_blocks_quiescence (cfg : Cfg E) (hfr : Frame cfg) (hrc : cfg.repConfirm = true)
+    (hrf : cfg.repForce = true) (hcap : cfg.repCapture = true) (p0 : PortId → PortSt E) (h0 : InitOk p0)
+    (s : State E) (hr : Reach cfg p0 s) (ps : Pass) (q : PortId) (rest : List PortId) (hps : s.pass = some ps)
+    (hh : ps.handling = false) (ht : ps.todo = q :: rest) (henq : (s.port q).enabled = true)
+    (hchg : (s.port q).drv ≠ (s.port q).lastRead)
+    (p : PortId) (hp : p < cfg.n) (e : E) (hqd : q ∈ cfg.deps e) (hqp : q ≠ p)
+    (acts : List (Act E)) (s1 s' : State E) (h1 : step? cfg s .passRead = some s1) (hrun : run? cfg s1 acts = some s')
+    (hk1 : KeepsAt s1 p e q) (hall : RunAll cfg (Keeps p e q) acts s1)
+    (hno : RunAll cfg (fun t a t1 => ¬ EvalOf p q (s.port q).drv t a t1) acts s1) : ¬ Quiescent cfg s' :=
+  owed_run_not_quiescent hp hqp hqd acts s1 s' hk1
+    (passRead_owes p (inv_reach hfr hrc hrf hcap p0 h0 hr).1 hps hh ht henq hchg h1) hrun hall hno
 
 /-! ### the code before the repairs does not converge -/
 
@@ -209,5 +317,101 @@ theorem unrepaired_capture_not_converges :
     reach_of_run Reach.init _ _ (run_final (by decide)), by decide, ?_⟩
   intro hc
   exact absurd (hc 1 (by decide) (.port 0) (by decide) (by decide) (by decide)) (by decide)
+
+/-! ### non-vacuity of the trace-level statements, and the self-reading case -/
+
+/-- Hub for (A): x = port 0 (1), y = port 1 with `$0` (holding 1), w = port 2 (5), which y does not read. -/
+def aPorts : PortId → PortSt TExpr := fun q =>
+  if q = 0 then ⟨true, none, some 1, some 1, [], .idle, [], none, false⟩
+  else if q = 1 then ⟨true, some (.port 0), some 1, some 1, [], .idle, [], none, false⟩
+  else if q = 2 then ⟨true, none, some 5, some 5, [], .idle, [], none, false⟩
+  else ⟨false, none, none, none, [], .idle, [], none, false⟩
+
+/-- After the boot pass and the forced evaluation of y (1 = 1: nothing to write): y is settled and unforced. -/
+def sSettled : State TExpr := final (tinyCfg 3 [] true true true) (State.init aPorts)
+  (anonPass3 ++ [.evalTake 1, .evalCmp 1])
+
+/-- w: 5 → 7, a whole pass detects and handles it; w: 7 → 8, a second pass has polled every port (w is in its changed
+set) and is about to handle the change. -/
+def aActs : List (Act TExpr) :=
+  [.setSource 2 (some 7)] ++ anonPass3 ++ [.setSource 2 (some 8), .passBegin .anon, .passRead, .passRead, .passRead]
+
+theorem aPorts_initOk : InitOk aPorts := by
+  intro p
+  simp only [aPorts]
+  split
+  · rfl
+  · split
+    · rfl
+    · split <;> rfl
+
+/-- The hypotheses of `unread_changes_never_alter` are met by a run with real activity (w's value changes twice and
+both changes are detected; the second pass is still running with w in its changed set). -/
+example : Reach (tinyCfg 3 [] true true true) aPorts sSettled ∧ (sSettled.port 1).expr = some (.port 0) ∧
+    (sSettled.port 1).quiet = true ∧ Unforced (tinyCfg 3 [] true true true) sSettled 1 (.port 0) ∧
+    (run? (tinyCfg 3 [] true true true) sSettled aActs).isSome = true ∧
+    RunAll (tinyCfg 3 [] true true true) (Unread (tinyCfg 3 [] true true true) 1 (.port 0)) aActs sSettled ∧
+    (sSettled.port 2).lastRead = some 5 ∧
+    ((final (tinyCfg 3 [] true true true) sSettled aActs).port 2).lastRead = some 8 ∧
+    (∃ ps, (final (tinyCfg 3 [] true true true) sSettled aActs).pass = some ps ∧ ps.changed = [2]) :=
+  ⟨reach_of_run Reach.init _ _ (run_final (by decide)), by decide, by decide, by decide, by decide, by decide,
+   by decide, by decide, ⟨⟨.anon, [], [2], false, [], false⟩, by decide, by decide⟩⟩
+
+/-- Continuation for (B) on the D10 hub from `sDetect` (x has changed to 2, the pass is about to poll x): the pass
+ends, y is evaluated on the new snapshot, written, confirmed by the eval task's and the writer's passes. -/
+def bActs : List (Act TExpr) :=
+  [.passRead, .passHandleA, .passHandleB, .evalTake 1, .evalCmp 1, .writeBegin 1, .writeEnd 1,
+   .passBegin (.evaler 1), .passRead, .passRead, .passHandleA, .passHandleB,
+   .passBegin (.writer 1), .passRead, .passRead, .passHandleA, .passHandleB]
+
+/-- The hypotheses of `dep_change_is_re_evaluated` are met (reachable state, the run is enabled, keeps y and x as they
+are and ends quiescent) — and its conclusion is visible: the run contains the evaluation of y with x = 2. -/
+example : Reach (tinyCfg 2 [] true true true) d10Ports sDetect ∧
+    (run? (tinyCfg 2 [] true true true) sDetect (.passRead :: bActs)).isSome = true ∧
+    RunAll (tinyCfg 2 [] true true true) (Keeps 1 (.port 0) 0) (.passRead :: bActs) sDetect ∧
+    Quiescent (tinyCfg 2 [] true true true) (final (tinyCfg 2 [] true true true) sDetect (.passRead :: bActs)) ∧
+    (sDetect.port 0).drv = some 2 ∧
+    RunEx (tinyCfg 2 [] true true true) (EvalOf 1 0 (some 2)) (.passRead :: bActs) sDetect :=
+  ⟨reach_of_run Reach.init _ _ (run_final (by decide)), by decide, by decide, by decide, by decide, by decide⟩
+
+/-- …and those of `dep_change_blocks_quiescence`: the prefix of that continuation up to (not including) `evalTake 1`
+contains no evaluation of y, and indeed ends in a state that is not quiescent. -/
+example : RunAll (tinyCfg 2 [] true true true) (fun t a t1 => ¬ EvalOf 1 0 (some 2) t a t1)
+      (.passRead :: bActs.take 3) sDetect ∧
+    (run? (tinyCfg 2 [] true true true) sDetect (.passRead :: bActs.take 3)).isSome = true ∧
+    ¬ Quiescent (tinyCfg 2 [] true true true)
+      (final (tinyCfg 2 [] true true true) sDetect (.passRead :: bActs.take 3)) :=
+  ⟨by decide, by decide, by decide⟩
+
+/-- Self-reading hub: x = port 0 (1), y = port 1 with `ADD($1, $0)`, holding 5. -/
+def selfPorts : PortId → PortSt TExpr := fun q =>
+  if q = 0 then ⟨true, none, some 1, some 1, [], .idle, [], none, false⟩
+  else if q = 1 then ⟨true, some (.op2 .add (.port 1) (.port 0)), some 5, some 5, [], .idle, [], none, false⟩
+  else ⟨false, none, none, none, [], .idle, [], none, false⟩
+
+/-- Boot pass, forced evaluation of y (5 + 1 = 6 ≠ 5: written), the eval task's and the writer's confirming passes read
+y = 6 — y's own change does not trigger y again (`trig`: `q != p`). -/
+def selfSchedule : List (Act TExpr) :=
+  anonPass2 ++ [.evalTake 1, .evalCmp 1, .writeBegin 1, .writeEnd 1] ++
+  [.passBegin (.evaler 1), .passRead, .passRead, .passHandleA, .passHandleB] ++
+  [.passBegin (.writer 1), .passRead, .passRead, .passHandleA, .passHandleB]
+
+theorem selfPorts_initOk : InitOk selfPorts := by
+  intro p
+  simp only [selfPorts]
+  split
+  · rfl
+  · split <;> rfl
+
+/-- THE SELF-READING CASE IS REFUTED, not excluded by a guard: the repaired scheduler accepts a port whose expression
+reads the port itself, and reaches a quiescent state in which that port (y = 6) does NOT hold the value of its
+expression over the current values (6 + 1 = 7). So `p ∉ cfg.deps e` in `Converged` cannot be dropped. -/
+theorem self_reading_not_converged :
+    ∃ s, Reach (tinyCfg 2 [] true true true) selfPorts s ∧ Quiescent (tinyCfg 2 [] true true true) s ∧
+      (s.port 1).enabled = true ∧ (s.port 1).expr = some (.op2 .add (.port 1) (.port 0)) ∧
+      (s.port 1).lastRead = some 6 ∧
+      ¬ Good (tinyCfg 2 [] true true true) s 1 (.op2 .add (.port 1) (.port 0)) (s.port 1).lastRead :=
+  ⟨final (tinyCfg 2 [] true true true) (State.init selfPorts) selfSchedule,
+    reach_of_run Reach.init _ _ (run_final (by decide)), by decide, by decide, by decide, by decide, by decide⟩
 
 end QtVerif.Core
